@@ -36,6 +36,8 @@ def gen_case(rng):
             c["meta_drift"] = d; c["op"] = ["dedrift", None]
         else:
             c["op"] = ["dedrift", d]
+            if rng.random() < 0.4:      # metadata may record some other rate: an explicit argument (zero included) wins
+                c["meta_drift"] = rng.choice([1.0, -1.5, 0.5, 2.0]) * unit
         c["D"] = D
     elif k < 0.85:
         c["op"] = ["integrate", rng.choice(["t", "f", 0, 1]), rng.choice(["mean", "sum", "s", "m"]), rng.random() < 0.5]
